@@ -264,6 +264,18 @@ CORPUS = {
         Q_ERRMSG, Q_STD_LE_BYTES,
     ],
     'C18': [
+        ('witness-bytes-sized-by-capacity', 'fire', [(TR, '                .map(|o| size_of::<u64>() + o.r.len() * size_of::<Scalar>())', '                .map(|o| size_of::<u64>() + o.r.capacity() * size_of::<Scalar>())'),
+                                                     (TR, '''                for r in &opening.r {
+                    witness_bytes.extend(r.as_bytes());
+                }
+            }
+''', '''                for r in &opening.r {
+                    witness_bytes.extend(r.as_bytes());
+                }
+            }
+            witness_bytes.resize(size, 0);
+''')], 'R-C18-6'),
+        ('allocation-sized-by-capacity', 'quiet', [(TR, '                .map(|o| size_of::<u64>() + o.r.len() * size_of::<Scalar>())', '                .map(|o| size_of::<u64>() + o.r.capacity().max(o.r.len()) * size_of::<Scalar>())')], None),
         ('verifier-draws-from-os-rng', 'fire', [(RP, 'let mut weight_transcript_rng = weight_transcript.build_rng().finalize(&mut NullRng);', 'let mut weight_transcript_rng = weight_transcript.build_rng().finalize(&mut rand_core::OsRng);')], 'R-C18-3'),
         ('time-dependent-branch', 'fire', [(RP, '        // Store masks from all results\n', '        let _t = std::time::Instant::now();\n        // Store masks from all results\n')], 'R-C18-3'),
         Q_ERRMSG, Q_RENAME_WEIGHT,
